@@ -49,7 +49,7 @@ Proof. destruct pm as [d v u n de]. intros [H1 [H2 H3]]. cbn in *. subst. reflex
 Lemma props_meta_tokens ps : Forall (fun kv => tokens_none (snd kv)) (props_meta ps).
 Proof. unfold props_meta. induction ps as [|[k p] r IH]; cbn; [constructor|].
   destruct (create_props_metadata k p) as [pm|] eqn:E; cbn; [|exact IH]. constructor; [|exact IH]. cbn.
-  unfold create_props_metadata in E. destruct (p_vals (upcast_prop p)) as [a|[|e0 r0]]; try discriminate.
+  apply cpm_core_of_ok in E; unfold cpm_core in E. destruct (p_vals (upcast_prop p)) as [a|[|e0 r0]]; try discriminate.
   - destruct (valid_prop_dtype (a_dt a) && negb (k =? "")); inversion E; subst. repeat split.
   - destruct (forallb _ r0); [|discriminate]. destruct (valid_prop_dtype (v_dt e0) && negb (k =? "")); inversion E; subst. repeat split. Qed.
 
@@ -786,7 +786,7 @@ Proof. intros Hinv H. unfold minmax_axis_full in H.
 
 Lemma create_pm_valid k p pm : create_props_metadata k p = Ok pm ->
   valid_prop_dtype (pm_dtype pm) = true /\ negb (String.eqb k "") = true.
-Proof. unfold create_props_metadata. destruct (p_vals (upcast_prop p)) as [a|[|e0 r0]]; try discriminate.
+Proof. intros Hcpm0; apply cpm_core_of_ok in Hcpm0; revert Hcpm0. unfold cpm_core. destruct (p_vals (upcast_prop p)) as [a|[|e0 r0]]; try discriminate.
   - destruct (valid_prop_dtype (a_dt a) && negb (k =? "")) eqn:E; [|discriminate]. intros H. inversion H; subst. cbn.
     apply andb_true_iff in E. exact E.
   - destruct (forallb _ r0); [|discriminate]. destruct (valid_prop_dtype (v_dt e0) && negb (k =? "")) eqn:E; [|discriminate].
